@@ -267,8 +267,16 @@ def enum_domain(check: Check, repo: Repo, rule: str = "ENUM-DOMAIN") -> None:
         txt = unparse(r.value) if r.value is not None else "None"
         ok = False
         why = ""
-        if txt == "self._value_lookup[output_value]":
+        lookups = ("self._value_lookup[output_value]", "self._value_lookup.get(output_value)")
+        if txt in lookups:
             ok, why = True, "lookup value (checked below to hold names only)"
+        elif isinstance(r.value, ast.Name) and [unparse(d.value) for d in walk_body(fn) if isinstance(d, ast.Assign)
+                                                and any(isinstance(t, ast.Name) and t.id == r.value.id for t in d.targets)] in ([lookups[0]], [lookups[1]]):
+            facts = {(f.text, f.pol) for f in FactFlow(CFG(fn)).facts_at(r) if f.kind == "cond"}
+            name = r.value.id
+            nonnull = (f"{name} is not None", True) in facts or (f"{name} is None", False) in facts or (name, True) in facts
+            ok = txt != "" and (lookups[0] in [unparse(d.value) for d in walk_body(fn) if isinstance(d, ast.Assign)] or nonnull)
+            why = "local bound to the lookup value" + (" and known not to be None" if nonnull else "") if ok else "a missing entry (None) would be returned as a name"
         elif isinstance(r.value, ast.Name):
             # must be the key variable of a loop over self.values.items() guarded by an equality test on the value
             loop = next((a for a in _ancestors(r) if isinstance(a, ast.For)), None)
@@ -985,6 +993,12 @@ def float_text(check: Check, repo: Repo, rule: str = "FLOAT-TEXT") -> None:
             r = ev._exec_block(_desugar_ifs(arm.body))
         except NotStatic as ex:
             raise AnalysisError(f"ast_from_value: float arm is no longer foldable: {ex}") from ex
+        if r is Evaluator._NoReturn:
+            # single-exit form: the literal is bound to a local that is returned after the if/elif chain
+            tgt = next((t.id for s_ in arm.body if isinstance(s_, ast.Assign) and isinstance(s_.value, ast.Call) and call_name(s_.value) == "FloatValueNode"
+                        for t in s_.targets if isinstance(t, ast.Name)), None)
+            if tgt is not None:
+                r = ev.env.get(tgt)
         if not (isinstance(r, tuple) and len(r) == 2 and isinstance(r[1], str)):
             bad.append(f"{x!r}: no literal produced")
             continue
